@@ -13,6 +13,7 @@ def main():
     os.environ["SQV_MODE"] = "replay"
     from sqv import hlib
     hlib.PARAM = rec.get("param")
+    hlib.TIER = rec.get("tier") or "quick"
     hlib.EXCLUDES = []
     hlib.TWIN = False
     if rec["kind"] == "z3":
